@@ -1,6 +1,8 @@
 import CijModel.Wire
 import CijModel.QhaInput
 import CijModel.ElastDat
+import CijModel.Regex
+import Generated.ReadersSpec
 open Lean Cij Cij.Wire
 
 namespace Cij.Ops.C17
@@ -71,8 +73,58 @@ def optJson {α} (f : α → Json) : Option α → Json
   | some a => f a
   | none => Json.str "error"
 
+/-- groups of a match as strings; no match = null -/
+def groupsJson : Option Regex.Groups → Json
+  | some gs => Json.arr (gs.map fun g => Json.str (String.ofList g)).toArray
+  | none => Json.null
+
+/-- a raw text line → the model's token list (`Regex.splitWs` = `str.split()`) -/
+def tokensOfRaw (s : String) : Line := (Regex.splitWs s.toList).map String.ofList
+
+/-- the regex the SOURCE holds now (translated into `Generated.Readers`) by the name of the Python constant -/
+def generatedRegex : String → Option (List Regex.Instr)
+  | "REGEX_INFO_START" => some Generated.Readers.regexInfoStart
+  | "REGEX_PVE" => some Generated.Readers.regexPVE
+  | "REGEX_MODULUS" => some Generated.Readers.regexModulus
+  | _ => none
+
 def handle : Handler := fun op j =>
   match op with
+  | "c17.regex" => some do
+      -- `re.search(pattern, s)`: by generated name, or by pattern text through the Lean parser
+      let subj ← strOfJson (← field j "s")
+      match j.getObjVal? "name" with
+      | .ok n => do
+          let n ← strOfJson n
+          match generatedRegex n with
+          | some p => pure (Json.mkObj [("groups", groupsJson (Regex.search p subj.toList))])
+          | none => pure (Json.mkObj [("groups", Json.str "unknown-name")])
+      | .error _ => do
+          let pat ← strOfJson (← field j "pattern")
+          match Regex.searchText pat.toList subj.toList with
+          | some r => pure (Json.mkObj [("groups", groupsJson r)])
+          | none => pure (Json.mkObj [("groups", Json.str "unsupported-pattern")])
+  | "c17.lex" => some do
+      -- the regex-free recognisers of the model on one raw line
+      let subj ← strOfJson (← field j "s")
+      let cs := subj.toList
+      pure (Json.mkObj [
+        ("tokens", jStrs (tokensOfRaw subj)),
+        ("info", groupsJson (Regex.recogInfo cs)),
+        ("pve", groupsJson (Regex.recogPVE cs)),
+        ("modulus", groupsJson (Regex.recogModulus cs)),
+        ("match_info", match matchInfo (tokensOfRaw subj) with
+          | some (a, b, c, d, e) => jInts [a, b, c, d, e]
+          | none => Json.null),
+        ("match_pve", match matchPVE (tokensOfRaw subj) with
+          | some (a, b, c) => jStrs [a, b, c]
+          | none => Json.null)])
+  | "c17.read_energy_raw" => some do
+      let ls ← listOf strOfJson (← field j "lines")
+      pure (optJson dataJson (readEnergy Lex.ratFmt (ls.map tokensOfRaw)))
+  | "c17.read_elast_raw" => some do
+      let ls ← listOf strOfJson (← field j "lines")
+      pure (optJson elastJson (readElastData Lex.ratFmt (ls.map tokensOfRaw)))
   | "c17.write_read" => some do
       let d ← dataOfJson (← field j "data")
       let comment ← listOf strOfJson (fieldD j "comment" (jStrs ["QHA", "Input", "data"]))
